@@ -215,6 +215,11 @@ func encodeTop(vc *VC, fn *ssa.Function, d *Decl) []inputVar {
 		}
 		vc.oblige("at-call-missing", sanitizeLit(firstWord(txt)), "true", "false", "the function no longer makes the call this clause is about: at-call "+txt, fr.props, posOf(fn, fn.Pos()))
 	}
+	for _, cl := range d.Get("at-store") {
+		if !fr.atCallSeen[cl] {
+			vc.oblige("at-store-missing", sanitizeLit(firstWord(strings.TrimSpace(cl.Text))), "true", "false", "the function no longer stores into the field this clause is about: at-store "+cl.Text, fr.props, posOf(fn, fn.Pos()))
+		}
+	}
 	if len(fr.rets) == 0 {
 		return inputs
 	}
@@ -274,8 +279,11 @@ func encodeTop(vc *VC, fn *ssa.Function, d *Decl) []inputVar {
 	if err != nil {
 		panic(specErr("modifies: " + err.Error()))
 	}
-	if specified {
+	if specified && !d.Has("trusted-frame") {
 		fr.frameObligations(items, st, final, rg, pos)
+	}
+	if d.Has("trusted-frame") {
+		vc.note("ASSUMED on " + d.Name + ": its modifies clause (trusted-frame: no frame obligation generated)")
 	}
 	return inputs
 }
